@@ -24,7 +24,7 @@ def opt_int(o, name):
     return any_int_value(effective(o, name))
 
 
-@contract('droop.values.fixed.Fixed.initialize', props=['C20', 'C17', 'C12', 'C14'],
+@contract('droop.values.fixed.Fixed.initialize', props=['C20', 'C17', 'C12', 'C14', 'C04'],
           class_state='droop.values.fixed.Fixed')
 def fixed_initialize(options: 'Options'):
     requires(opt_inv(options))
